@@ -10,8 +10,10 @@ open Goml.Dce (keys allDecls lookup_cons_self lookup_cons_ne lookup_none_of_not_
 
 attribute [local irreducible] Goml.GoCompile.vn Goml.GoCompile.gid Goml.GoCompile.rn
 
-theorem toG_int {n s x gv} (h : toG (.int n s x) = some gv) : gv = .int n s x := by simp [toG] at h; exact h.symm
-theorem toG_bool {b gv} (h : toG (.bool b) = some gv) : gv = .bool b := by simp [toG] at h; exact h.symm
+theorem toG_int {env : Env} {n s x gv} (h : toGV env (.int n s x) = some gv) : gv = .int n s x := by
+  rw [toGV] at h; injection h with h; exact h.symm
+theorem toG_bool {env : Env} {b gv} (h : toGV env (.bool b) = some gv) : gv = .bool b := by
+  rw [toGV] at h; injection h with h; exact h.symm
 
 /-- the shape of a compiled call of the fragment: an ordinary Go call of `vn name` -/
 theorem compileCall_frag {env : Env} {file : AFile} {G : List String} {Γ : Ctx} {name : String} {fty : Ty}
@@ -91,7 +93,7 @@ theorem sem_bin_fuel {P : Prog} {ρ : Sem.Env} {w : World} {n : Nat} {op : BinOp
   rw [Sem.eval, h]
 
 theorem stepV {env : Env} {file : AFile} {G : List String} {P : Prog} {F : GFile} (hl : Link env file G P F) {n : Nat}
-    (hu : SimU file G P F n) (hb : SimB P F n) : SimV env file G P F (n + 1) := by
+    (hu : SimU env file G P F n) (hb : SimB env P F n) : SimV env file G P F (n + 1) := by
   intro c Γ ρ w gρ gw Bad hctl hfrag hrel hw hgood hcal
   cases c with
   | imm i =>
@@ -182,13 +184,24 @@ theorem stepV {env : Env} {file : AFile} {G : List String} {P : Prog} {F : GFile
         rcases sem_imm_any hsb (w := w) n with h2 | h2
         · rw [h2]; trivial
         · rw [h2]; simp only
+          have hscl : scalarTy l.ty = true := by
+            simp only [binOK, Bool.and_eq_true] at hop
+            obtain ⟨⟨_, hdom⟩, _⟩ := hop
+            cases op <;> cases hlt : l.ty <;> rw [hlt] at hdom <;> simp [binDom, scalarTy] at hdom ⊢
+          have h3a' : Goml.C01.toG a = some ga := by rw [← toGV_scalar h4a hscl]; exact h3a
+          have h3b' : Goml.C01.toG b = some gb := by rw [← toGV_scalar h4b hscl]; exact h3b
+          have hscr : scalarTy ty = true := by
+            simp only [binOK, Bool.and_eq_true] at hop
+            obtain ⟨⟨_, hdom⟩, hres⟩ := hop
+            have := scalarEq_eq hres; subst this
+            cases op <;> simp only [binResTy] <;> first | exact hscl | rfl
           rcases binop_frag hop hlog' h4a h4b with ⟨v, hv, hvt⟩ | ⟨k, hk⟩
           · rw [hv]; simp only
-            obtain ⟨gv, hgv, hgt⟩ := Goml.C01.binop_ok_agree op a b v ga gb hlog' h3a h3b hv
+            obtain ⟨gv, hgv, hgt⟩ := Goml.C01.binop_ok_agree op a b v ga gb hlog' h3a' h3b' hv
             rw [← gBin_eq_gop] at hgv
-            exact ⟨gv, gw, ev_bin (by rw [isLogicG_gBin]; exact hlog') (hga gw) (hgb gw) hgv, hgt, hvt, hw⟩
+            exact ⟨gv, gw, ev_bin (by rw [isLogicG_gBin]; exact hlog') (hga gw) (hgb gw) hgv, by rw [toGV_scalar hvt hscr]; exact hgt, hvt, hw⟩
           · rw [hk]; simp only
-            have hgk := Goml.C01.binop_panic_agree op a b ga gb k hlog' h3a h3b hk
+            have hgk := Goml.C01.binop_panic_agree op a b ga gb k hlog' h3a' h3b' hk
             rw [← gBin_eq_gop] at hgk
             exact ⟨gw, ev_bin_err (by rw [isLogicG_gBin]; exact hlog') (hga gw) (hgb gw) hgk, hw⟩
   | call f args ty =>
@@ -275,10 +288,70 @@ theorem stepV {env : Env} {file : AFile} {G : List String} {P : Prog} {F : GFile
   | ite c t e ty => simp [isCtl] at hctl
   | «while» c b ty => simp [isCtl] at hctl
   | matchE s arms d ty => simp [isCtl] at hctl
-  | constr c args ty => simp [fragC] at hfrag
+  | constr c args ty =>
+    cases c with
+    | enum tn vn' vi => simp [fragC] at hfrag
+    | struct sn =>
+      simp only [fragC, Bool.and_eq_true] at hfrag
+      obtain ⟨⟨hty, hgood⟩, hcase⟩ := hfrag
+      have hty' := scalarEq_eq hty; subst hty'
+      have hsn : sn ∈ goodStructs env := by simpa using hgood
+      cases hd : env.getStruct sn with
+      | none => rw [hd] at hcase; simp at hcase
+      | some d =>
+        rw [hd] at hcase; simp only at hcase
+        obtain ⟨vs, gvs, hrelA, hgF, hsA⟩ := fields_both env P F hrel hcase
+        obtain ⟨hv, hT⟩ := struct_value hl.structs hsn hd hrelA
+        obtain ⟨_, _, _, hlen⟩ := toGVs_of_args hrelA
+        simp only [CExpr.toExpr, compileCExpr, CExpr.annTy, hd, Option.map_some, Option.getD_some]
+        rw [Sem.eval]
+        rcases hsA n w with h2 | h2
+        · rw [h2]; trivial
+        · rw [h2]; simp only
+          have hgo := ev_slit_name (name := gid sn) (hgF gw)
+          rw [slit_struct hl.structs hsn (hl.table sn hsn) hd (by simpa using hlen)] at hgo
+          have hgt : goTy (.struct sn) = .name (gid sn) := by simp [goTy]
+          rw [hgt]
+          exact ⟨_, gw, hgo, hv, hT, hw⟩
   | tuple items ty => simp [fragC] at hfrag
   | array items ty => simp [fragC] at hfrag
-  | cget e c idx ty => simp [fragC] at hfrag
+  | cget e c idx ty =>
+    cases c with
+    | enum tn vn' vi => simp [fragC] at hfrag
+    | struct sn =>
+      simp only [fragC, Bool.and_eq_true] at hfrag
+      obtain ⟨⟨⟨he, hety⟩, _⟩, hcase⟩ := hfrag
+      have hety' := scalarEq_eq hety
+      obtain ⟨v, gv, hs, hg, h3, h4⟩ := imm_both env P F he hrel
+      rw [hety'] at h4
+      -- the value is a struct value of an admitted struct
+      cases v <;> simp only [HasTy] at h4 <;> try exact h4.elim
+      rename_i n' vs
+      obtain ⟨hn, hsn, hfields⟩ := h4
+      subst hn
+      obtain ⟨d, hd, hgen, hnd, _⟩ := good_struct hl.structs hsn
+      rw [hd] at hfields
+      rw [cgetField_struct hety' hd hgen] at hcase
+      cases hf : d.fields[idx]? with
+      | none => rw [hf] at hcase; simp at hcase
+      | some p =>
+        rw [hf] at hcase; simp only [Option.map_some] at hcase
+        have hty' := scalarEq_eq hcase
+        simp only [toGV, hd] at h3
+        cases hgs : toGVs env vs with
+        | none => rw [hgs] at h3; simp at h3
+        | some gs =>
+          rw [hgs] at h3; simp only [Option.some.injEq] at h3; subst h3
+          have hti : (d.fields.map (·.2))[idx]? = some p.2 := by simp [hf]
+          obtain ⟨vi, gi, hvi, hgi, hri, hti'⟩ := struct_field idx hgs hfields hti
+          simp only [CExpr.toExpr, compileCExpr, CExpr.annTy, cgetField_struct hety' hd hgen, hf, Option.map_some, Option.getD_some]
+          rw [Sem.eval]
+          rcases sem_imm_any hs (w := w) n with h1 | h1
+          · rw [h1]; trivial
+          · rw [h1]; simp only [hvi]
+            have hni : (d.fields.map fun f => gid f.1)[idx]? = some (gid p.1) := by simp [hf]
+            have hlk := lookup_zip _ gs idx (gid p.1) gi hnd hni hgi
+            exact ⟨gi, gw, ev_field_struct (hg gw) hlk, hri, hty' ▸ hti', hw⟩
   | toDyn tr forTy e ty => simp [fragC] at hfrag
   | dynCall tr m recv args ty => simp [fragC] at hfrag
   | go e ty => simp [fragC] at hfrag
